@@ -6,18 +6,28 @@ EXTENDS Router, Json, IOUtils
 
 VARIABLES l, st, skipping, fails, cs
 
-RInit(e) == [records |-> e.records]
+(* case kind "mux": the http.Handler built by denco.Mux - one table per method,  *)
+(* looked up with the request's URL.Path; no match => the NotFound handler (404) *)
+RInit(e) == IF e.kind = "mux" THEN [kind |-> "mux", records |-> e.handlers]
+            ELSE [kind |-> "table", records |-> e.records]
+
+Of(hs, method) == SelectSeq(hs, LAMBDA h : h.method = method)
 
 AnyDup(records) == \E i \in DOMAIN records : DupNames(records[i].pat)
 
 RAllowed(s, e) ==
   CASE e.ev = "build"  -> e.err = AnyDup(s.records)
+    [] e.ev = "serve"  -> /\ s.kind = "mux"
+                          /\ LookupAllowed(Of(s.records, e.method), e.path, e.obs)
+                          /\ (~e.obs.found => e.status = 404)
     [] e.ev = "lookup" -> /\ \A k \in DOMAIN e.obs : LookupAllowed(s.records, e.path, e.obs[k])
                           /\ \A k \in DOMAIN e.obs : e.obs[k] = e.obs[1]
     [] OTHER -> FALSE
 
 RWhy(s, e) ==
   CASE e.ev = "build"  -> "build-accepts-iff-no-duplicate-names"
+    [] e.ev = "serve" -> IF ~LookupAllowed(Of(s.records, e.method), e.path, e.obs)
+                         THEN WhyNot(Of(s.records, e.method), e.path, e.obs) ELSE "not-found-must-answer-404"
     [] e.ev = "lookup" ->
          IF \E k \in DOMAIN e.obs : ~LookupAllowed(s.records, e.path, e.obs[k])
          THEN WhyNot(s.records, e.path, e.obs[CHOOSE k \in DOMAIN e.obs : ~LookupAllowed(s.records, e.path, e.obs[k])])
